@@ -14,7 +14,7 @@ pub fn def() -> PropDef {
         level: "exploration",
         profile,
         oracle: |_cfg| Box::new(C40::default()),
-        quick_runs: 30_000,
+        quick_runs: 90_000,
         thorough_runs: 800_000,
         panic_is_violation: false,
         rule: "run = seeded multi-replica history with string scalars in maps and lists (conflicted, deleted, overwritten, nested, in unreachable objects); at every save and at the end the saved bytes are loaded with StringMigration::ConvertToText and compared register by register, over EVERY object (reachable or not), with the reference interpreter: no visible string left in a map or list, a text object holding the greatest-id string where strings were visible, all other registers unchanged, and no added change when no string was visible anywhere; non-trivial = at least one visible string was migrated; distinct by digest of the saved bytes",
